@@ -575,10 +575,12 @@ type FuncContract struct {
 	Results  []Param
 	Requires []Clause
 	Ensures  []Clause
+	Assumes  []Clause // post-conditions assumed at call sites but NOT checked against the body (reported as trusted)
 	Assigns  *AssignsSpec
 	Loops    map[int]*LoopSpec
 	Decr     []Expr
 	Uses     []string // lemma names
+	Invokes  []string // function-valued parameters the callee calls (with arbitrary arguments)
 	Inline   bool     // never use the contract at call sites; always inline
 	NoInline bool
 	File     string
@@ -650,7 +652,7 @@ func ParseFile(path, text string, goFile bool) (*File, error) {
 	}
 	// group lines into logical clauses: a clause starts with a keyword at the
 	// beginning of the (trimmed) line; other lines continue the previous one.
-	kw := []string{"package", "import", "sort", "pure", "ghost", "lemma", "axiom", "func", "extern", "requires", "ensures", "assigns", "loop", "invariant", "decreases", "use", "inline", "noinline", "trusted", "opaque", "trigger"}
+	kw := []string{"package", "import", "sort", "pure", "ghost", "lemma", "axiom", "func", "extern", "requires", "ensures", "assigns", "loop", "invariant", "decreases", "use", "inline", "noinline", "trusted", "opaque", "trigger", "invokes", "assumes"}
 	var clauses []string
 	for _, ln := range lines {
 		t := strings.TrimSpace(ln)
@@ -732,7 +734,7 @@ func ParseFile(path, text string, goFile bool) (*File, error) {
 			fc.Loops = map[int]*LoopSpec{}
 			f.Funcs = append(f.Funcs, fc)
 			curF, curLoop, curPure, curLemma = fc, nil, nil, nil
-		case "requires", "ensures", "invariant":
+		case "requires", "ensures", "invariant", "assumes":
 			cl, err := parseClause(rest)
 			if err != nil {
 				return nil, fail(err)
@@ -747,6 +749,8 @@ func ParseFile(path, text string, goFile bool) (*File, error) {
 				return nil, fail(fmt.Errorf("clause outside func"))
 			case word == "requires":
 				curF.Requires = append(curF.Requires, cl)
+			case word == "assumes":
+				curF.Assumes = append(curF.Assumes, cl)
 			default:
 				curF.Ensures = append(curF.Ensures, cl)
 			}
@@ -840,6 +844,11 @@ func ParseFile(path, text string, goFile bool) (*File, error) {
 			default:
 				return nil, fail(fmt.Errorf("use outside context"))
 			}
+		case "invokes":
+			if curF == nil {
+				return nil, fail(fmt.Errorf("invokes outside func"))
+			}
+			curF.Invokes = append(curF.Invokes, strings.FieldsFunc(rest, func(r rune) bool { return r == ',' || r == ' ' })...)
 		case "inline":
 			if curF != nil {
 				curF.Inline = true
